@@ -513,6 +513,19 @@ async def execute(job):
     except Exception:
         pass
 
+    # RTP sequence origins.  SRTP cannot convey the rollover counter: a receiver that has not
+    # authenticated a single packet of a stream before the sender's sequence number wraps can
+    # never authenticate the later ones (RFC 3711 3.3.1) - that is no defect of the library.
+    # So the origin is placed such that the wrap (still exercised in half of the jobs) comes
+    # after the first packet of the direction that the driver will not alter.
+    tam_of = {op["id"]: op.get("tam", False) for op in job["ops"] if op["op"] == "transit"}
+    for s_ in SIDES:
+        flags = [tam_of.get(op["id"], False) for op in job["ops"]
+                 if op["op"] == "send" and op["from"] == s_ and op["kind"] == "rtp"]
+        first_good = flags.index(False) if False in flags else len(flags)
+        top = 65535 - 3 * (first_good + 1)
+        seq[s_] = r.randrange(max(0, top - 40), top + 1) if r.random() < 0.5 else r.randrange(0, top + 1)
+
     # ---- traffic, one driver step at a time
     link.mode = "hold"
     sender_of = {}
